@@ -245,7 +245,7 @@ func run(ctx *core.Ctx) error {
 		"pipe scenario rows per site, and for the exploration distinct (call, outcome class, mutated slot) triples"
 	ctx.Ev.Assume("TLC; Go's runtime accounting (runtime/metrics heap allocs, getrusage CPU time, runtime.NumGoroutine); the envelope constants are calibrated, not derived")
 	ctx.Ev.Assume("beyond the enumerated wirings (N <= 3, <= 3 slots per object) and the generated chains/ladders, totality over arbitrary bytes is explored by seeded mutation, not decided")
-	ctx.Ev.Assume("a worker process has a 16 MiB Go stack limit (256 documented nesting levels x 64 KiB); a report is confirmed with Go's default limit")
+	ctx.Ev.Assume("a worker process has a 16 MiB Go stack limit (the documented depth caps allow 256 nesting levels: 64 KiB per level) and a 6 GiB address space; exhausting either is the outcome 'fatal'")
 
 	if err := runModels(ctx); err != nil {
 		return err
@@ -557,7 +557,7 @@ func replay(ctx *core.Ctx, raw json.RawMessage) error {
 	if err != nil {
 		return err
 	}
-	pool.defaultStack = true
+	pool.confirming = true
 	pool.Watchdog = 45 * time.Second
 	w, res := pool.runCase(nil, rc.req())
 	w.kill()
